@@ -48,6 +48,13 @@ func genBatch(r *RNG, withBad bool, maxLines int) *Scenario {
 		}
 		sc.Worlds = append(sc.Worlds, w)
 	}
+	// stratum: two projects whose folder (and therefore every project file name) differ in letter case only
+	if nw >= 2 && r.Bool(0.15) {
+		sc.Worlds[1].Loc = strings.ToUpper(sc.Worlds[0].Loc)
+		if sc.Worlds[1].Loc == sc.Worlds[0].Loc {
+			sc.Worlds[1].Loc = "p1" + sc.Worlds[1].Loc
+		}
+	}
 	// stratum: user-defined crop codes (each world renames its first crop to a code of its own; the codes get the
 	// same per-run crop id, so anything that confuses runs by that id shows)
 	if r.Bool(0.3) {
@@ -79,7 +86,7 @@ func genBatch(r *RNG, withBad bool, maxLines int) *Scenario {
 		func(w *World) string { return fmt.Sprintf("ETpot=%d", r.Range(1, 5)) },
 		func(w *World) string { return fmt.Sprintf("LeachingDepth=%d", r.Range(1, w.Soil.N())) },
 	}
-	badKinds := []string{"unknown-soil", "unknown-field", "bad-texture", "bad-fractions", "weather-gap", "till-in-crop", "startyear", "weather-late"}
+	badKinds := []string{"unknown-soil", "unknown-field", "bad-texture", "bad-fractions", "weather-gap", "till-in-crop", "startyear", "weather-late", "args-no-project", "args-no-plot", "args-bad-overwrite"}
 	for i := 0; i < nl; i++ {
 		wi := r.Intn(nw)
 		w := sc.Worlds[wi]
@@ -90,7 +97,7 @@ func genBatch(r *RNG, withBad bool, maxLines int) *Scenario {
 		if r.Bool(0.25) && len(sc.Lines) > 0 {
 			// repeated line (same arguments, distinct output id)
 			prev := sc.Lines[r.Intn(len(sc.Lines))]
-			bl = BatchLine{World: prev.World, Extra: append([]string{}, prev.Extra...), Bad: prev.Bad}
+			bl = BatchLine{World: prev.World, Extra: append([]string{}, prev.Extra...), Bad: prev.Bad, Drop: prev.Drop}
 		} else if withBad && r.Bool(0.4) {
 			bl.Bad = badKinds[r.Intn(len(badKinds))]
 			if bl.Bad == "till-in-crop" && len(w.Rot) < 2 {
@@ -110,6 +117,14 @@ func genBatch(r *RNG, withBad bool, maxLines int) *Scenario {
 				bl.Extra = append(bl.Extra, "soilId=8F1", fmt.Sprintf("PTF=%d", r.Range(1, 4)))
 			case "weather-gap":
 				bl.Extra = append(bl.Extra, "fcode="+w.FCode+"gap")
+			case "args-no-project":
+				bl.Drop = []string{"project"}
+				bl.Extra = append(bl.Extra, "projekt="+w.Loc) // misspelt key
+			case "args-no-plot":
+				bl.Drop = []string{"plotNr"}
+				bl.Extra = append(bl.Extra, "plotnr="+w.Plot)
+			case "args-bad-overwrite":
+				bl.Extra = append(bl.Extra, "CropFile=PARAM.WW", r.PickS([]string{"c_NOSUCHPARAM=1", "c_TSUM_0=100", "c_TSUM_12=100", "c_PARTITION_2_9=0.5"}))
 			case "weather-late":
 				// the field starts before the first record of a series that another (good) line of the batch may have read already
 				bl.Extra = append(bl.Extra, "plotNr=19003", "fcode="+w.FCode+"late")
@@ -147,7 +162,21 @@ func (sc *Scenario) lineArgs(i int) []string {
 		args = append(args, "parameter=pless")
 	}
 	// later key=value tokens win in the run's argument map
-	return append(args, bl.Extra...)
+	args = append(args, bl.Extra...)
+	if len(bl.Drop) > 0 {
+		var kept []string
+		for _, a := range args {
+			drop := false
+			for _, k := range bl.Drop {
+				drop = drop || strings.HasPrefix(a, k+"=")
+			}
+			if !drop {
+				kept = append(kept, a)
+			}
+		}
+		args = kept
+	}
+	return args
 }
 
 // plessWorld: the world whose lines run on a reduced parameter folder (texture tables trimmed to its own textures).
@@ -381,6 +410,10 @@ func errorClassOf(errText string) string {
 		return "till-in-crop"
 	case strings.Contains(errText, "start year"):
 		return "startyear"
+	case strings.Contains(errText, "arguments requrired"):
+		return "args-missing"
+	case strings.Contains(errText, "invalid crop parameter") || strings.Contains(errText, "invalid development stage") || strings.Contains(errText, "invalid partition"):
+		return "args-bad-overwrite"
 	}
 	return "other"
 }
@@ -558,7 +591,7 @@ func execBatch(sc *Scenario, env *Env) *Result {
 		sem := make(chan struct{}, envInt("VERIF_REF_PAR", 4))
 		var wg sync.WaitGroup
 		for i := range sc.Lines {
-			key := fmt.Sprint(sc.Lines[i].World, "|", strings.Join(sc.Lines[i].Extra, " "))
+			key := fmt.Sprint(sc.Lines[i].World, "|", strings.Join(sc.Lines[i].Extra, " "), "|", strings.Join(sc.Lines[i].Drop, " "))
 			if j, ok := same[key]; ok {
 				refs[i] = &lineRef{sameAs: j + 1}
 				continue
